@@ -77,6 +77,17 @@ class _TableInterp:
                     raise guards.Inconclusive(f"membership test {norm(x)}")
                 return v if isinstance(op, ast.In) else not v
             return guards._cmp(op, self.ev(x.left), self.ev(r))
+        if isinstance(x, ast.Call) and isinstance(x.func, ast.Attribute) and x.func.attr == "get" and self.is_row(x.func.value) \
+                and 1 <= len(x.args) <= 2 and not x.keywords and isinstance(x.args[0], ast.Name) and x.args[0].id == self.namev:
+            # row.get(name[, d]) reads the cell without materialising it
+            if self.count != ABSENT:
+                return self.count
+            return self.ev(x.args[1]) if len(x.args) == 2 else None
+        if isinstance(x, ast.BinOp) and isinstance(x.op, (ast.Add, ast.Sub)):
+            l, r = self.ev(x.left), self.ev(x.right)
+            if not (isinstance(l, int) and isinstance(r, int)):
+                raise guards.Inconclusive(f"non-integer refcount arithmetic {norm(x)}")
+            return l + r if isinstance(x.op, ast.Add) else l - r
         raise guards.Inconclusive(f"tracker dispatch expression {norm(x)}")
 
     def mutates(self, stmts):
@@ -546,7 +557,7 @@ def r_rt_loop(e, R):
 
 BROAD = {None, "Exception", "BaseException"}
 # calls that cannot raise on the values the sweep applies them to (a dict of dicts built by main itself)
-SWEEP_TOTAL_CALLS = {"len", "items", "keys", "values", "list", "sorted"}
+SWEEP_TOTAL_CALLS = {"len", "items", "keys", "values", "list", "sorted", "tuple", "get", "copy"}   # total on builtin dicts / lists (str keys)
 
 
 def _sweep_region(e):
@@ -620,6 +631,11 @@ def r_rt_sweep(e, R):
             return x.value
         if isinstance(x, ast.Name) and x.id in env:
             return env[x.id]
+        if isinstance(x, ast.Name) and len(e.local_defs(f, x.id)) == 1:
+            return ev(e.local_defs(f, x.id)[0], env)            # a local bound once (e.g. the row fetched with .get)
+        if isinstance(x, ast.Call) and isinstance(x.func, ast.Attribute) and x.func.attr == "get" and isinstance(x.func.value, ast.Name) and x.func.value.id == regv \
+                and x.args and isinstance(x.args[0], ast.Constant):
+            return ("row", x.args[0].value) if x.args[0].value in env.get(regv, ()) else None
         if isinstance(x, (ast.Tuple, ast.List, ast.Set)):
             return [ev(v, env) for v in x.elts]
         if isinstance(x, ast.UnaryOp) and isinstance(x.op, ast.Not):
@@ -637,6 +653,10 @@ def r_rt_sweep(e, R):
                 return l in r
             if isinstance(op, ast.NotIn):
                 return l not in r
+            if isinstance(op, ast.Is):
+                return l is r
+            if isinstance(op, ast.IsNot):
+                return l is not r
         raise AnalysisError(f"tracker sweep: condition `{norm(x)}` not interpretable over the resource types")
 
     helper_calls = [(nd, c) for nd in g.nodes for c in calls_in(nd) if isinstance(c.func, ast.Name) and c.func.id in helpers
@@ -665,6 +685,14 @@ def r_rt_sweep(e, R):
             k = c.args[1].value
             sub = c.args[0]
             okarg = isinstance(sub, ast.Subscript) and isinstance(sub.value, ast.Name) and sub.value.id == regv and isinstance(sub.slice, ast.Constant) and sub.slice.value == k
+            if not okarg and isinstance(sub, ast.Name):
+                # the row fetched once into a local: `row = registry.get('folder')` / `row = registry['folder']`
+                try:
+                    okarg = ev(sub, {regv: keys}) == ("row", k) or any(
+                        isinstance(d, ast.Subscript) and isinstance(d.value, ast.Name) and d.value.id == regv and isinstance(d.slice, ast.Constant) and d.slice.value == k
+                        for d in e.local_defs(f, sub.id))
+                except AnalysisError:
+                    okarg = False
             if okarg and all(bool(ev(t.ast, {regv: keys})) == (lab == "T") for t, lab in ctl):
                 swept.setdefault(k, []).append("after")
     R.info["sweep_coverage"] = {k: swept.get(k, []) for k in sorted(keys)}
@@ -1019,9 +1047,35 @@ def r_sig(e, R):
     g = e.cfg(f)
     _, loop, _, _, _ = _loop_parts(e)
     heads = [n for n in g.nodes if n.kind == "join" and n.tag == "loop-head" and n.ast is loop]
+    mod = e.prog.modules[RT]
+
+    def _listed(x):
+        """signal names of a literal tuple/list, or of a module-level name bound once to one."""
+        if isinstance(x, ast.Name):
+            defs = [n.value for n in func_nodes(mod.body_func) if isinstance(n, ast.Assign) and any(isinstance(t_, ast.Name) and t_.id == x.id for t_ in n.targets)]
+            if len(defs) != 1 or e.local_defs(f, x.id):
+                return set()
+            x = defs[0]
+        return {norm(v).split(".")[-1] for v in x.elts} if isinstance(x, (ast.Tuple, ast.List)) else set()
+
+    def _ignored_by(n, c):
+        """(signal names, dominating node) of one signal.signal(..., SIG_IGN) call: direct, or in a plain loop over a signal list."""
+        a = c.args[0]
+        if not isinstance(a, ast.Name):
+            return {norm(a).split(".")[-1]}, n
+        p = parent(e, stmt_of(e, f, c))
+        if isinstance(p, ast.For) and isinstance(p.target, ast.Name) and p.target.id == a.id and not p.orelse \
+                and not any(isinstance(x, (ast.Break, ast.Continue, ast.Return, ast.Raise)) for s in p.body for x in ast.walk(s)) \
+                and isinstance(parent(e, p), ast.FunctionDef):
+            lh = [h for h in g.nodes if h.tag == "loop-head" and h.ast is p]
+            if lh:
+                return _listed(p.iter), lh[0]
+        return set(), n
+
+    ign_sites = [(_ignored_by(n, c)) for n in g.nodes for c in calls_in(n) if norm(c.func) == "signal.signal" and len(c.args) == 2
+                 and norm(c.args[1]).endswith("SIG_IGN")]
     for sig in ("SIGINT", "SIGTERM"):
-        ign = [n for n in g.nodes for c in calls_in(n) if norm(c.func) == "signal.signal" and len(c.args) == 2
-               and norm(c.args[0]).endswith(sig) and norm(c.args[1]).endswith("SIG_IGN")]
+        ign = [n for names, n in ign_sites if sig in names]
         R.check(bool(ign) and all(any(g.dominates(i, h) for i in ign) for h in heads), "R-SIG", f"tracker main ignores {sig} before reading requests",
                 f.short, f"signal.signal(signal.{sig}, signal.SIG_IGN)", f"the tracker does not ignore {sig}: ^C or `killall python` ends it before the "
                 "last process of the tree and tracked resources leak", e.loc(f, f.node))
@@ -1060,7 +1114,7 @@ def r_sig(e, R):
             "the set of signals blocked around the spawn is not {SIGINT, SIGTERM}", None)
     # main unblocks them again after installing SIG_IGN
     unb_m = [n for n in g.nodes for c in calls_in(n) if norm(c.func).endswith("pthread_sigmask") and c.args and norm(c.args[0]).endswith("SIG_UNBLOCK")]
-    ign_all = [n for n in g.nodes for c in calls_in(n) if norm(c.func) == "signal.signal"]
+    ign_all = [n for _names, n in ign_sites]
     R.check(bool(unb_m) and all(all(g.dominates(i, u) for i in ign_all) for u in unb_m), "R-SIG", "tracker main unblocks the signals only after ignoring them",
             f.short, "SIG_UNBLOCK after SIG_IGN", "the inherited mask is lifted before the handlers are installed", e.loc(f, f.node))
     R.floor("R-SIG", 8)
